@@ -739,74 +739,6 @@ structure FreshYield (ops : Ops σ S C) (ns : Nat) (ctr : σ → Nat) : Prop whe
     InRange ns (ctr s) (ctr (ops.act st s r).2.1) t
   nodup : ∀ st s (r : Req S), r.isAcc = true → (cellsOf (ops.act st s r).2.2.outs).Nodup
 
-theorem curTok_spec (ns : Nat) (w : PW) (s : AccSt) :
-    w.ctr ≤ (curTok ns w s).1.ctr ∧ (curTok ns w s).1.ctr ≤ w.ctr + 1 := by
-  unfold curTok
-  cases s.cur <;> simp [PW.alloc]
-
-theorem getCtx_ctr (ns : Nat) (w : PW) (x : HItem) : w.ctr ≤ (getCtx ns w x).1.ctr := by
-  unfold getCtx
-  cases x.ctxTok <;> simp [PW.alloc]
-
-theorem runSteps_nil_steps (ns : Nat) : ∀ (buf : List HItem) (w : PW) (cs : List Nat),
-    (runSteps ns [] w cs buf).1 = w := by
-  intro buf
-  induction buf with
-  | nil => intro w cs; rfl
-  | cons x xs ih => intro w cs; simp [runSteps, applySteps, ih]
-
-theorem accFill_ctr (ns : Nat) (k : AccKind) (w : PW) (s : AccSt) (x : HItem) :
-    w.ctr ≤ (accFill ns k w s x).1.ctr := by
-  have := getCtx_ctr ns w x
-  cases k <;> simp only [accFill] <;> try exact this
-  all_goals (try (split <;> simp [PW.copy, PW.alloc] <;> omega))
-  all_goals simp
-
-theorem accCompute_fresh (ns : Nat) (k : AccKind) (hk : k ≠ .store ∧ k ≠ .keepLast ∧ k ≠ .reqStore)
-    (w : PW) (s : AccSt) :
-    w.ctr ≤ (accCompute ns k w s).1.ctr ∧
-    (∀ t ∈ cellsOf (accCompute ns k w s).2.2.outs, InRange ns w.ctr (accCompute ns k w s).1.ctr t) ∧
-    (cellsOf (accCompute ns k w s).2.2.outs).Nodup := by
-  have hc := curTok_spec ns w s
-  cases k with
-  | store => simp at hk
-  | keepLast => simp at hk
-  | reqStore => simp at hk
-  | sum =>
-    simp only [accCompute]
-    split
-    · simp [mkItem, cellsOf]; exact hc.1
-    · simp [mkItem, cellsOf, PW.copy, PW.alloc, InRange]; omega
-  | dsum =>
-    simp only [accCompute]
-    split
-    · simp [mkItem, cellsOf]; exact hc.1
-    · simp [mkItem, cellsOf, PW.copy, PW.alloc, InRange]; omega
-  | reqSum => simp [accCompute, mkItem, cellsOf, PW.copy, PW.alloc, InRange]; omega
-  | count name => simp [accCompute, mkItem, cellsOf, PW.copy, PW.alloc, PW.upd, InRange]; omega
-  | histogram => simp [accCompute, mkItem, cellsOf, PW.copy, PW.alloc, InRange]; omega
-  | sib var lo hi => simp [accCompute, mkItem, cellsOf, PW.copy, PW.alloc, PW.upd, InRange]; omega
-  | vectorize dim =>
-    simp only [accCompute, maybeWithContext]
-    split <;> simp [mkItem, cellsOf, PW.copy, PW.alloc, InRange] <;> omega
-  | vmc corrected poe =>
-    simp only [accCompute, maybeWithContext]
-    split
-    · split <;> simp [cellsOf]
-    · split
-      · simp [cellsOf]
-      · split <;> simp [mkItem, cellsOf, PW.copy, PW.alloc, InRange] <;> omega
-  | mean sumSeq poe =>
-    simp only [accCompute, maybeWithContext]
-    split
-    · split <;> simp [cellsOf]
-    · split
-      · split <;> simp [mkItem, cellsOf, PW.copy, PW.alloc, PW.upd, InRange] <;> omega
-      · split <;> simp [mkItem, cellsOf, PW.copy, PW.alloc, InRange] <;> omega
-
-theorem applySteps_nil (ns : Nat) (w : PW) (cs : List Nat) (x : HItem) :
-    applySteps ns [] w cs x = ⟨w, [], some x, false⟩ := rfl
-
 /-! ## histories of one accumulator -/
 
 /-- one step of a history: a method invocation, or anything the rest of the program does to the heap -/
